@@ -169,6 +169,12 @@ func TestC19(t *testing.T) {
 			}
 			lits = append(lits, "1e-99999999999999999999", "0e99999999999999999999", "0.0E+9223372036854775808", "-0e-9223372036854775809", "1e-2147483648", "1e-4294967296", "0e2147483648",
 				"1.5e-18446744073709551616", "0.000e+00000000000000000000000000000000000000000000000001", "1E-000000000000000000000000000000000000000000000000000000000000000000005", "12345678901234567890e-340282366920938463463374607431768211456", "0e340282366920938463463374607431768211456")
+			// integer parts beyond the 800-digit buffer of the multi-precision fallback, on heads
+			// that defeat the fast paths (exact ties)
+			for _, n := range []int{799, 800, 801, 802, 900, 1000, 1279, 1281, 1500, 4000} {
+				lits = append(lits, "9007199254740993"+strings.Repeat("0", n-16)+fmt.Sprintf("e-%d", n-16), "1"+strings.Repeat("0", n-1)+fmt.Sprintf("e-%d", n-1),
+					"9007199254740993"+strings.Repeat("0", n-17)+"1"+fmt.Sprintf(".0e-%d", n-16), "4503599627370497"+strings.Repeat("0", n-16)+".5"+fmt.Sprintf("E-%d", n-16))
+			}
 			ok := true
 			for i, lit := range lits {
 				if !e.cfg.Mine(i) || !ok {
